@@ -24,6 +24,8 @@ macro_rules! dispatch {
             "C01" => Some($f::<checks::c01::C01>($($arg),*)),
             "C03" => Some($f::<checks::c03::C03>($($arg),*)),
             "C04" => Some($f::<checks::c04::C04>($($arg),*)),
+            "C05" => Some($f::<checks::c05::C05>($($arg),*)),
+            "C06" => Some($f::<checks::c06::C06>($($arg),*)),
             "C09" => Some($f::<checks::hist::C09>($($arg),*)),
             "C11" => Some($f::<checks::hist::C11>($($arg),*)),
             "C12" => Some($f::<checks::c12::C12>($($arg),*)),
@@ -33,12 +35,13 @@ macro_rules! dispatch {
             "C17" => Some($f::<checks::c17::C17>($($arg),*)),
             "C18" => Some($f::<checks::c18::C18>($($arg),*)),
             "C19" => Some($f::<checks::c19::C19>($($arg),*)),
+            "C20" => Some($f::<checks::c20::C20>($($arg),*)),
             _ => None,
         }
     };
 }
 
-pub const ALL_IDS: &[&str] = &["C01", "C03", "C04", "C09", "C11", "C12", "C14", "C15", "C16", "C17", "C18", "C19"];
+pub const ALL_IDS: &[&str] = &["C01", "C03", "C04", "C05", "C06", "C09", "C11", "C12", "C14", "C15", "C16", "C17", "C18", "C19", "C20"];
 
 fn drive_id(id: &str, o: &Opts) -> Option<i32> {
     dispatch!(id, drive, o)
